@@ -78,10 +78,10 @@ def cmp(x,y):
             return c
         else:
             return cmparr(xv, yv)
-    if is_nan(x):
-        x = np.inf
-    if is_nan(y):
-        y = np.inf
+    xn = is_float(x) and np.isnan(x)
+    yn = is_float(y) and np.isnan(y)
+    if xn or yn: # nan ties with nan and ranks above every number, +inf included; -inf and +inf compare by value
+        return 0 if (xn and yn) else 1 if xn else -1
     if is_iterable(x):
         return cmparr(x,y)
     else:
